@@ -9,15 +9,24 @@
 //      FFT paths (FftFilter, xcorr): |err_i| <= (8+log2 N) * eps * ||c||_2 * ||x_block||_2 (normwise: an
 //         FFT convolution has no componentwise bound; the block(s) feeding output i are used)
 //      MAFilter (running sum, re-summed every n samples): |err_t| <= (1.5n+4) * eps * sum_{j<2n}|x[t-j]| / n
+//   every bound carries an additive slack of a few DENORMAL quanta only ((nh+8) * 2^-1074 for the direct paths,
+//   64 * N * 2^-1074 * (1 + ||c|| + ||x||) for the FFT paths): the oracle is RELATIVE at every absolute scale of the
+//   coefficients and of the inputs (scale classes 1e-300 .. 1e100, tiny tails next to O(1) taps, +-0, denormals,
+//   powers of two, exact-zero runs longer than every internal history).
+//   Object lifetime: copies of FirFilter / FftFilter / MAFilter (vector<P>(n, proto), copy-construction and
+//   copy-assignment mid-stream, a destroyed copy, a moved copy) used interleaved with their source: every object must
+//   emit, bit for bit, what a separately constructed object emits on (copied history ++ own stream), and the defining sum.
 //   CORR: the same calls are replayed by the Lean model (`Model/Fir.lean`) through `dspdriver_c07`.
 #include "common.hpp"
 #include "ma-filter.h"
 #include <algorithm>
+#include <numeric>
 #include <set>
 using namespace dsplib;
 typedef long double ld;
 static vh::Out out;
 static const ld EPS = 2.220446049250313e-16L;
+static const ld DMIN = 4.9406564584124654e-324L;   // 2^-1074: the absolute quantum of the denormal range
 
 // ------------------------------------------------------------------ long-double scalars
 struct CL {
@@ -53,8 +62,26 @@ static void rnd(vh::Rng& r, cmplx_t& v) { v.re = r.gauss(); v.im = r.gauss(); }
 static void scale(real_t& v, double s) { v *= s; }
 static void scale(cmplx_t& v, double s) { v.re *= s; v.im *= s; }
 
-static const char* HK[] = {"random", "symmetric", "sparse", "single-first", "single-last"};
-static const int NHK = 5;
+static const char* HK[] = {"random", "symmetric", "sparse", "single-first", "single-last", "tiny-tail", "special-values"};
+static const int NHK = 7;
+// +-0, denormals, exact powers of two, +-1
+static double special_value(vh::Rng& r) {
+    const double sg = r.coin() ? 1.0 : -1.0;
+    switch (r.range(0, 6)) {
+    case 0: return sg * 0.0;
+    case 1: return sg * 4.9406564584124654e-324;
+    case 2: return sg * std::ldexp(1.0, -r.range(1023, 1070));
+    case 3: return sg * std::ldexp(1.0, r.range(-60, 60));
+    case 4: return sg;
+    case 5: return sg * std::ldexp(1.0, -1022);
+    default: return sg * std::ldexp(1.0, r.range(-8, 8));
+    }
+}
+static void spc(vh::Rng& r, real_t& v) { v = special_value(r); }
+static void spc(vh::Rng& r, cmplx_t& v) { v.re = special_value(r); v.im = special_value(r); }
+// the absolute scale classes of coefficient vectors and of inputs
+static const double SCALES[] = {1e-300, 1e-17, 0x1p-60, 1e-8, 1.0, 1e8, 0x1p60, 1e100};
+static const int NSC = 8;
 template<class T> base_array<T> gen_h(vh::Rng& r, int nh, int kind) {
     base_array<T> h(nh);
     for (int i = 0; i < nh; ++i) h[i] = T(0);
@@ -68,13 +95,24 @@ template<class T> base_array<T> gen_h(vh::Rng& r, int nh, int kind) {
     }
     case 3: rnd(r, h[0]); break;
     case 4: rnd(r, h[nh - 1]); break;
+    case 5: {   // one or two O(1) taps, every other tap NON-ZERO but 1e-16 .. 1e-25 of them
+        for (int i = 0; i < nh; ++i) { rnd(r, h[i]); scale(h[i], std::pow(10.0, -r.range(16, 25))); }
+        rnd(r, h[r.range(0, nh - 1)]);
+        if (r.coin()) rnd(r, h[r.range(0, nh - 1)]);
+        break;
+    }
+    case 6: for (int i = 0; i < nh; ++i) spc(r, h[i]); break;
     }
     return h;
 }
+template<class T> void scale_all(base_array<T>& a, double s) {
+    if (s != 1.0) for (int i = 0; i < a.size(); ++i) scale(a[i], s);
+}
 
-static const char* XK[] = {"gauss", "impulsive", "dynamic-per-sample", "dynamic-per-segment", "dc", "unit-impulse"};
-static const int NXK = 6;
-template<class T> base_array<T> gen_x(vh::Rng& r, int nx, int kind) {
+static const char* XK[] = {"gauss", "impulsive", "dynamic-per-sample", "dynamic-per-segment", "dc", "unit-impulse", "zero-runs", "special-values"};
+static const int NXK = 8;
+// `hist`: the longest internal history of the processor under test (zero runs are made longer than that)
+template<class T> base_array<T> gen_x(vh::Rng& r, int nx, int kind, int hist = 16) {
     base_array<T> x(nx);
     for (int i = 0; i < nx; ++i) x[i] = T(0);
     if (nx == 0) return x;
@@ -104,6 +142,19 @@ template<class T> base_array<T> gen_x(vh::Rng& r, int nx, int kind) {
     }
     case 4: { T c; rnd(r, c); for (int i = 0; i < nx; ++i) x[i] = c; break; }
     case 5: x[0] = T(1); break;
+    case 6: {   // bursts of varying scale separated by runs of exact zeros (+0 or -0) longer than the history
+        int i = 0;
+        while (i < nx) {
+            const int nb = r.range(1, hist + 3);
+            const double s = std::ldexp(1.0, r.range(-30, 30));
+            for (int k = 0; k < nb && i < nx; ++k, ++i) { rnd(r, x[i]); scale(x[i], s); }
+            const int nz = r.range(hist + 1, 3 * hist + 5);
+            const bool neg = r.coin();
+            for (int k = 0; k < nz && i < nx; ++k, ++i) { x[i] = T(0); if (neg) scale(x[i], -1.0); }
+        }
+        break;
+    }
+    case 7: for (int i = 0; i < nx; ++i) spc(r, x[i]); break;
     }
     return x;
 }
@@ -181,24 +232,100 @@ template<class T> void ref_conv(const Stream<T>& c, const Stream<T>& x, int i, t
     }
 }
 
+// the case in flight: absolute scales of coefficients / inputs and (optionally) a prescribed framing
+static double g_sc = 1.0, g_sx = 1.0;
+static const std::vector<int>* g_lens = nullptr;
+struct ScaleScope {
+    ScaleScope(double sc, double sx) { g_sc = sc; g_sx = sx; }
+    ~ScaleScope() { g_sc = 1.0; g_sx = 1.0; }
+};
+static const char* scale_name(double s) {
+    static char b[8][32];
+    static int k = 0;
+    k = (k + 1) % 8;
+    std::snprintf(b[k], sizeof b[k], "%g", s);
+    return b[k];
+}
+
 static std::string case_json(const char* what, const char* T, int nh, int hk, int nx, int xk, const std::vector<int>& lens, uint64_t cs, int idx, ld err, ld bound) {
     std::ostringstream o;
     o << "{\"op\":\"" << what << "\",\"type\":\"" << T << "\",\"nh\":" << nh << ",\"coeff_kind\":\"" << (hk >= 0 ? HK[hk] : "-") << "\",\"nx\":" << nx
-      << ",\"input_kind\":\"" << XK[xk] << "\",\"frames\":" << vh::jints(lens) << ",\"case_seed\":" << cs << ",\"index\":" << idx
+      << ",\"input_kind\":\"" << XK[xk] << "\",\"coeff_scale\":" << vh::jnum(g_sc) << ",\"input_scale\":" << vh::jnum(g_sx)
+      << ",\"frames\":" << vh::jints(lens) << ",\"case_seed\":" << cs << ",\"index\":" << idx
       << ",\"error\":" << vh::jnum((double)err) << ",\"bound\":" << vh::jnum((double)bound) << "}";
     return o.str();
 }
+static void scale_stats(const char* what) {
+    if (g_sc != 1.0) out.stat(std::string(what) + "_coeff_scale_" + scale_name(g_sc));
+    if (g_sx != 1.0) out.stat(std::string(what) + "_input_scale_" + scale_name(g_sx));
+}
+
+// ------------------------------------------------------------------ the defining-sum oracles (shared by the plain, the copy and the large-frame scenarios)
+// direct path: componentwise; `mk(i, err, bound)` builds the witness
+template<class T, class MK>
+bool oracle_fir(vh::Rng& r, const base_array<T>& h, const base_array<T>& x, const base_array<T>& y, const std::vector<int>& lens, const std::string& key, MK mk) {
+    const int nh = h.size(), nx = x.size();
+    const Stream<T> c(h, true), xs(x);
+    std::vector<int> marks = {nh - 1, nh};
+    { int q = 0; for (int l : lens) { q += l; marks.push_back(q); } }
+    const auto idx = pick(r, nx, nh, marks, 400);
+    for (int i : idx) {
+        typename Tr<T>::L v; ld S;
+        ref_conv<T>(c, xs, i, v, S);
+        const ld e = errL(v, y[i]);
+        const ld bound = (nh + 8) * EPS * S + (nh + 8) * DMIN;
+        out.n_oracle++;
+        if (S > 0) maxstat("fir_worst_err_over_eps_sumabs_x1000", (long long)(1000 * e / (EPS * S + DMIN)));
+        if (!(e <= bound) || !finiteT(y[i])) { out.fail(key, mk(i, e, bound)); return false; }
+    }
+    return true;
+}
+// FFT path: normwise over the blocks that feed output i; optionally the direct filter's output `yd` on the same stream
+template<class T, class MK>
+bool oracle_fft(vh::Rng& r, const base_array<T>& h, const base_array<T>& x, const std::vector<T>& y, int bs, const base_array<T>* yd,
+                const std::string& key, const std::string& key_vs, MK mk) {
+    const int nh = h.size();
+    const int L = 1 << ceil_log2(bs + nh - 1);   // transform length of one block
+    const Stream<T> c(h, true), xs(x);
+    const ld hn = c.norm2(0, nh);
+    const int ny = y.size();
+    std::vector<ld> bn;   // ||x_block||_2
+    for (int b = 0; b * bs < ny; ++b) bn.push_back(xs.norm2(b * bs, (b + 1) * bs));
+    std::vector<int> marks = {nh - 1, nh};
+    for (int b = 1; b * bs <= ny; ++b) marks.push_back(b * bs), marks.push_back(b * bs + nh - 2);
+    const auto idx = pick(r, ny, nh, marks, 400);
+    const ld cf = 8 + ceil_log2(L);
+    for (int i : idx) {
+        typename Tr<T>::L v; ld S;
+        ref_conv<T>(c, xs, i, v, S);
+        const int b = i / bs;
+        const ld xn = bn[b] + (b > 0 ? bn[b - 1] : 0);
+        const ld N = hn * xn;
+        const ld e = errL(v, y[i]);
+        const ld bound = cf * EPS * N + 64 * L * DMIN * (1 + hn + xn);
+        out.n_oracle++;
+        if (N > 0) maxstat("fft_worst_err_over_eps_norms_x1000", (long long)(1000 * e / (EPS * N + DMIN)));
+        if (!(e <= bound) || !finiteT(y[i])) { out.fail(key, mk("FftFilter", i, e, bound)); return false; }
+        if (yd) {
+            const ld e2 = errL(toL((*yd)[i]), y[i]);
+            const ld bound2 = bound + (nh + 8) * EPS * S + (nh + 8) * DMIN;
+            out.n_oracle++;
+            if (!(e2 <= bound2)) { out.fail(key_vs, mk("FftFilter~FirFilter", i, e2, bound2)); return false; }
+        }
+    }
+    return true;
+}
 
 // ------------------------------------------------------------------ FirFilter / FftFilter
-template<class T> struct FftOut { using type = base_array<T>; };
-
 template<class T>
 void test_fir(uint64_t cs, int nh, int hk, int nx, int xk, int nf, bool emit, int stride) {
     vh::Rng r(cs);
     const char* tn = Tr<T>::nm();
-    const base_array<T> h = gen_h<T>(r, nh, hk);
-    const base_array<T> x = gen_x<T>(r, nx, xk);
-    const std::vector<int> lens = gen_cuts(r, nx, nf);
+    base_array<T> h = gen_h<T>(r, nh, hk);
+    base_array<T> x = gen_x<T>(r, nx, xk, 2 * nh);
+    scale_all(h, g_sc);
+    scale_all(x, g_sx);
+    const std::vector<int> lens = g_lens ? *g_lens : gen_cuts(r, nx, nf);
     const std::string cj0 = case_json("FirFilter", tn, nh, hk, nx, xk, lens, cs, -1, 0, 0);
     vh::set_current("C07:fir-crash", cj0);
     FirFilter<T> f(h);
@@ -217,25 +344,14 @@ void test_fir(uint64_t cs, int nh, int hk, int nx, int xk, int nf, bool emit, in
     out.stat(std::string("fir") + tn + "_cases");
     out.stat(std::string("coeff_") + HK[hk]);
     out.stat(std::string("input_") + XK[xk]);
-    out.stat(nf > 1 ? "fir_multi_call" : "fir_single_call");
+    scale_stats("fir");
+    out.stat(lens.size() > 1 ? "fir_multi_call" : "fir_single_call");
     out.stat(nx == 0 ? "nx_0" : nx < nh ? "nx_lt_nh" : nx <= 1000 ? "nx_le_1000" : nx <= 20000 ? "nx_le_20000" : "nx_gt_20000");
     out.stat(nh <= 8 ? "nh_2_8" : nh <= 64 ? "nh_9_64" : nh <= 256 ? "nh_65_256" : "nh_257_1024");
     if (!lenok) { out.fail("C07:fir-length", cj0); return; }
     if (emit) out.corr(std::string("fir") + tn + " " + std::to_string(stride) + " " + vh::hxs(h) + " " + frames_str(x, lens), outs.empty() ? "-" : outs);
-    // oracle
-    const Stream<T> c(h, true), xs(x);
-    std::vector<int> marks = {nh - 1, nh};
-    { int q = 0; for (int l : lens) { q += l; marks.push_back(q); } }
-    const auto idx = pick(r, nx, nh, marks, 400);
-    for (int i : idx) {
-        typename Tr<T>::L v; ld S;
-        ref_conv<T>(c, xs, i, v, S);
-        const ld e = errL(v, y[i]);
-        const ld bound = (nh + 8) * EPS * S + 1e-300L;
-        out.n_oracle++;
-        if (S > 0) maxstat("fir_worst_err_over_eps_sumabs_x1000", (long long)(1000 * e / (EPS * S)));
-        if (!(e <= bound) || !finiteT(y[i])) { out.fail(std::string("C07:fir-sum-") + tn, case_json("FirFilter", tn, nh, hk, nx, xk, lens, cs, i, e, bound)); break; }
-    }
+    oracle_fir<T>(r, h, x, y, lens, std::string("C07:fir-sum-") + tn,
+                  [&](int i, ld e, ld b) { return case_json("FirFilter", tn, nh, hk, nx, xk, lens, cs, i, e, b); });
     if (out.n_cases % 37 == 1) out.sample(cj0);
 }
 
@@ -246,15 +362,17 @@ template<class T>
 void test_fft(uint64_t cs, int nh, int hk, int nx, int xk, int nf, bool emit, int stride) {
     vh::Rng r(cs);
     const char* tn = Tr<T>::nm();
-    const base_array<T> h = gen_h<T>(r, nh, hk);
-    const base_array<T> x = gen_x<T>(r, nx, xk);
-    const std::vector<int> lens = gen_cuts(r, nx, nf);
+    base_array<T> h = gen_h<T>(r, nh, hk);
+    const int bs0 = (1 << ceil_log2(2 * nh)) - nh + 1;
+    base_array<T> x = gen_x<T>(r, nx, xk, bs0 + nh);
+    scale_all(h, g_sc);
+    scale_all(x, g_sx);
+    const std::vector<int> lens = g_lens ? *g_lens : gen_cuts(r, nx, nf);
     const std::string cj0 = case_json("FftFilter", tn, nh, hk, nx, xk, lens, cs, -1, 0, 0);
     vh::set_current("C07:fftfilter-crash", cj0);
     FftFilter f(h);
     FirFilter<T> fd(h);
     const int bs = f.block_size();
-    const int L = 1 << ceil_log2(bs + nh - 1);   // transform length of one block
     std::vector<T> y;
     std::string outs;
     int p = 0;
@@ -271,39 +389,18 @@ void test_fft(uint64_t cs, int nh, int hk, int nx, int xk, int nf, bool emit, in
     out.stat(std::string("fft") + tn + "_cases");
     out.stat(std::string("coeff_") + HK[hk]);
     out.stat(std::string("input_") + XK[xk]);
-    out.stat(nf > 1 ? "fft_multi_call" : "fft_single_call");
+    scale_stats("fft");
+    out.stat(lens.size() > 1 ? "fft_multi_call" : "fft_single_call");
     out.stat(y.empty() ? "fft_blocks_0" : int(y.size()) == bs ? "fft_blocks_1" : int(y.size()) <= 4 * bs ? "fft_blocks_2_4" : "fft_blocks_5plus");
     out.stat(nx % bs == 0 ? "fft_nx_multiple_of_block" : "fft_nx_partial_block");
     if (!lenok) { out.fail("C07:fftfilter-length", cj0); return; }
-    // oracle: defining sum (normwise bound over the blocks that feed output i) + equality with the direct filter
-    const Stream<T> c(h, true), xs(x);
-    const ld hn = c.norm2(0, nh);
     // CORR line: block size, then the frames' outputs (the model runs the C01 model of the library's own plans, in the library's
     // operation order: the outputs are compared bit for bit, no scale token)
     if (emit) out.corr(std::string("fft") + tn + " " + std::to_string(stride) + " " + vh::hxs(h) + " " + frames_str(x, lens),
                        std::to_string(bs) + outs);
-    const int ny = y.size();
-    std::vector<ld> bn;   // ||x_block||_2
-    for (int b = 0; b * bs < ny; ++b) bn.push_back(xs.norm2(b * bs, (b + 1) * bs));
-    std::vector<int> marks = {nh - 1, nh};
-    for (int b = 1; b * bs <= ny; ++b) marks.push_back(b * bs), marks.push_back(b * bs + nh - 2);
-    const auto idx = pick(r, ny, nh, marks, 400);
-    const ld cf = 8 + ceil_log2(L);
-    for (int i : idx) {
-        typename Tr<T>::L v; ld S;
-        ref_conv<T>(c, xs, i, v, S);
-        const int b = i / bs;
-        const ld N = hn * (bn[b] + (b > 0 ? bn[b - 1] : 0));
-        const ld e = errL(v, y[i]);
-        const ld bound = cf * EPS * N + 1e-300L;
-        out.n_oracle++;
-        if (N > 0) maxstat("fft_worst_err_over_eps_norms_x1000", (long long)(1000 * e / (EPS * N)));
-        if (!(e <= bound) || !finiteT(y[i])) { out.fail(std::string("C07:fftfilter-sum-") + tn, case_json("FftFilter", tn, nh, hk, nx, xk, lens, cs, i, e, bound)); break; }
-        const ld e2 = errL(toL(yd[i]), y[i]);
-        const ld bound2 = bound + (nh + 8) * EPS * S;
-        out.n_oracle++;
-        if (!(e2 <= bound2)) { out.fail(std::string("C07:fftfilter-vs-fir-") + tn, case_json("FftFilter~FirFilter", tn, nh, hk, nx, xk, lens, cs, i, e2, bound2)); break; }
-    }
+    // oracle: defining sum (normwise bound over the blocks that feed output i) + equality with the direct filter
+    oracle_fft<T>(r, h, x, y, bs, &yd, std::string("C07:fftfilter-sum-") + tn, std::string("C07:fftfilter-vs-fir-") + tn,
+                  [&](const char* op, int i, ld e, ld b) { return case_json(op, tn, nh, hk, nx, xk, lens, cs, i, e, b); });
     if (out.n_cases % 37 == 2) out.sample(cj0);
 }
 
@@ -312,23 +409,27 @@ template<class T>
 void test_xcorr(uint64_t cs, int n1, int n2, int ak, int bk, bool emit, bool autoc) {
     vh::Rng r(cs);
     const char* tn = Tr<T>::nm();
-    const base_array<T> a = gen_x<T>(r, n1, ak);
-    const base_array<T> b = autoc ? a : gen_x<T>(r, n2, bk);
+    base_array<T> a = gen_x<T>(r, n1, ak, std::max(1, n1 / 8));
+    scale_all(a, g_sc);
+    base_array<T> b = a;
+    if (!autoc) { b = gen_x<T>(r, n2, bk, std::max(1, n2 / 8)); scale_all(b, g_sx); }
     if (autoc) n2 = n1;
     std::ostringstream o;
     o << "{\"op\":\"" << (autoc ? "xcorr(x)" : "xcorr(a,b)") << "\",\"type\":\"" << tn << "\",\"n1\":" << n1 << ",\"n2\":" << n2 << ",\"a_kind\":\"" << XK[ak]
-      << "\",\"b_kind\":\"" << XK[bk] << "\",\"case_seed\":" << cs;
+      << "\",\"b_kind\":\"" << XK[bk] << "\",\"a_scale\":" << vh::jnum(g_sc) << ",\"b_scale\":" << vh::jnum(autoc ? g_sc : g_sx) << ",\"case_seed\":" << cs;
     const std::string cj0 = o.str();
     vh::set_current("C07:xcorr-crash", cj0 + "}");
     const base_array<T> z = autoc ? xcorr(a) : xcorr(a, b);
     vh::clear_current();
     out.stat(std::string("xcorr") + tn + "_cases");
     out.stat(n1 == n2 ? "xcorr_n1_eq_n2" : n1 < n2 ? "xcorr_n1_lt_n2" : "xcorr_n1_gt_n2");
+    scale_stats("xcorr");
     if (z.size() != n1 + n2 - 1) { out.fail("C07:xcorr-length", cj0 + "}"); return; }
     if (emit) out.corr(std::string("xc") + tn + " " + vh::hxs(a) + " " + vh::hxs(b), vh::hxs(z));
     const Stream<T> as(a), bs(b, true);
     const int M = 1 << ceil_log2(n1 + n2 - 1);
-    const ld N = as.norm2(0, n1) * bs.norm2(0, n2);
+    const ld na = as.norm2(0, n1), nb = bs.norm2(0, n2);
+    const ld N = na * nb;
     const ld cf = 8 + ceil_log2(M);
     vh::Rng r2(cs ^ 0x5555);
     const auto idx = pick(r2, n1 + n2 - 1, std::min(n1, n2), {n2 - 1, n1 - 1}, 600);
@@ -337,9 +438,9 @@ void test_xcorr(uint64_t cs, int n1, int n2, int ak, int bk, bool emit, bool aut
         typename Tr<T>::L v = zeroL(typename Tr<T>::L());
         for (int n = std::max(0, -lag); n < n2 && n + lag < n1; ++n) accL(v, mulL(as.v[n + lag], bs.v[n]));
         const ld e = errL(v, z[j]);
-        const ld bound = cf * EPS * N + 1e-300L;
+        const ld bound = cf * EPS * N + 64 * M * DMIN * (1 + na + nb);
         out.n_oracle++;
-        if (N > 0) maxstat("xcorr_worst_err_over_eps_norms_x1000", (long long)(1000 * e / (EPS * N)));
+        if (N > 0) maxstat("xcorr_worst_err_over_eps_norms_x1000", (long long)(1000 * e / (EPS * N + DMIN)));
         if (!(e <= bound) || !finiteT(z[j])) {
             std::ostringstream q;
             q << cj0 << ",\"index\":" << j << ",\"lag\":" << lag << ",\"error\":" << vh::jnum((double)e) << ",\"bound\":" << vh::jnum((double)bound) << "}";
@@ -355,8 +456,9 @@ template<class T>
 void test_ma(uint64_t cs, int n, int nx, int xk, int nf, bool emit, bool scalar_api) {
     vh::Rng r(cs);
     const char* tn = Tr<T>::nm();
-    const base_array<T> x = gen_x<T>(r, nx, xk);
-    const std::vector<int> lens = gen_cuts(r, nx, nf);
+    base_array<T> x = gen_x<T>(r, nx, xk, 2 * n);
+    scale_all(x, g_sx);
+    const std::vector<int> lens = g_lens ? *g_lens : gen_cuts(r, nx, nf);
     const std::string cj0 = case_json("MAFilter", tn, n, -1, nx, xk, lens, cs, -1, 0, 0);
     vh::set_current("C07:ma-crash", cj0);
     MAFilter<T> m(n);
@@ -380,6 +482,7 @@ void test_ma(uint64_t cs, int n, int nx, int xk, int nf, bool emit, bool scalar_
     vh::clear_current();
     out.stat(std::string("ma") + tn + "_cases");
     out.stat(std::string("input_") + XK[xk]);
+    scale_stats("ma");
     if (!lenok) { out.fail("C07:ma-length", cj0); return; }
     if (emit) out.corr(std::string("ma") + tn + " " + std::to_string(n) + " " + frames_str(x, lens), outs.empty() ? "-" : outs);
     const Stream<T> xs(x);
@@ -395,18 +498,185 @@ void test_ma(uint64_t cs, int n, int nx, int xk, int nf, bool emit, bool scalar_
         }
         v = divL(v, (ld)n);
         const ld e = errL(v, y[t]);
-        const ld bound = (1.5L * n + 4) * EPS * S2 / n + 1e-300L;
+        const ld bound = (1.5L * n + 4) * EPS * S2 / n + (2 * n + 8) * DMIN;
         out.n_oracle++;
-        if (S2 > 0) maxstat("ma_worst_err_over_eps_sumabs2n_x1000", (long long)(1000 * e * n / (EPS * S2)));
+        if (S2 > 0) maxstat("ma_worst_err_over_eps_sumabs2n_x1000", (long long)(1000 * e * n / (EPS * S2 + DMIN)));
         if (!(e <= bound) || !finiteT(y[t])) { out.fail(std::string("C07:ma-sum-") + tn, case_json("MAFilter", tn, n, -1, nx, xk, lens, cs, t, e, bound)); break; }
         if (n >= 2) {   // the library's own FIR filter with n taps 1/n
             const ld e2 = errL(toL(yf[t]), y[t]);
-            const ld bound2 = bound + (n + 8) * EPS * S1 / n;
+            const ld bound2 = bound + (n + 8) * EPS * S1 / n + (n + 8) * DMIN;
             out.n_oracle++;
             if (!(e2 <= bound2)) { out.fail(std::string("C07:ma-vs-fir-") + tn, case_json("MAFilter~FirFilter", tn, n, -1, nx, xk, lens, cs, t, e2, bound2)); break; }
         }
     }
     if (out.n_cases % 37 == 4) out.sample(cj0);
+}
+
+// ------------------------------------------------------------------ object lifetime: copies of stateful filters
+// A processor object copied from another one (from a fresh prototype, or mid-stream) is "started from" the copied state:
+// from then on it must emit exactly what a separately constructed object emits on (history of the source up to the copy) ++
+// (its own stream), whatever its siblings are fed meanwhile; the source must be unaffected by what the copies process.
+template<class T> struct PFir {
+    using Obj = FirFilter<T>;
+    static const char* nm() { return "fir"; }
+    static const char* cls() { return "FirFilter"; }
+    static Obj make(const base_array<T>& h) { return Obj(h); }
+    static base_array<T> run(Obj& o, const base_array<T>& x) { return o.process(x); }
+    static std::string head(const base_array<T>& h) { return std::string("fir") + Tr<T>::nm() + " 1 " + vh::hxs(h); }
+};
+template<class T> struct PFft {
+    using Obj = FftFilter;
+    static const char* nm() { return "fftfilter"; }
+    static const char* cls() { return "FftFilter"; }
+    static Obj make(const base_array<T>& h) { return Obj(h); }
+    static base_array<T> run(Obj& o, const base_array<T>& x) { return run_fft(o, x); }
+    static std::string head(const base_array<T>& h) { return std::string("fft") + Tr<T>::nm() + " 1 " + vh::hxs(h); }
+};
+template<class T> struct PMa {   // `h` only carries the length n
+    using Obj = MAFilter<T>;
+    static const char* nm() { return "ma"; }
+    static const char* cls() { return "MAFilter"; }
+    static Obj make(const base_array<T>& h) { return Obj(h.size()); }
+    static base_array<T> run(Obj& o, const base_array<T>& x) { return o.process(x); }
+    static std::string head(const base_array<T>& h) { return std::string("ma") + Tr<T>::nm() + " " + std::to_string(h.size()); }
+};
+template<class T> static bool same_bits(const std::vector<T>& a, const std::vector<T>& b) {
+    return a.size() == b.size() && (a.empty() || std::memcmp(a.data(), b.data(), a.size() * sizeof(T)) == 0);
+}
+template<class T> static void append(std::vector<T>& v, const base_array<T>& a) { for (int i = 0; i < a.size(); ++i) v.push_back(a[i]); }
+template<class T> static base_array<T> to_arr(const std::vector<T>& v) { base_array<T> a(int(v.size())); for (size_t i = 0; i < v.size(); ++i) a[int(i)] = v[i]; return a; }
+
+// one channel of a copy scenario: the object, the stream it sees (history of its source included) and what it emitted
+template<class P, class T> struct Chan {
+    typename P::Obj obj;
+    std::vector<T> in, outv;       // whole logical stream / concatenated output
+    std::vector<int> lens;         // framing of the logical stream (history frames first)
+    std::vector<std::string> fouts;   // per-frame output tokens (CORR)
+    const char* how;
+    Chan(const typename P::Obj& o, const char* how_) : obj(o), how(how_) {}
+    void feed(const base_array<T>& fr) {
+        const base_array<T> y = P::run(obj, fr);
+        append(in, fr); append(outv, y);
+        lens.push_back(fr.size());
+        fouts.push_back(vh::hxs(y));
+    }
+    // adopt the history of the channel this one was copied from
+    void inherit(const Chan& src) { in = src.in; outv = src.outv; lens = src.lens; fouts = src.fouts; }
+};
+
+template<class P, class T>
+void test_copy(uint64_t cs, int nh, int hk, int xk, bool midstream, bool emit) {
+    vh::Rng r(cs);
+    const char* tn = Tr<T>::nm();
+    const bool isfft = std::string(P::nm()) == "fftfilter", isma = std::string(P::nm()) == "ma";
+    base_array<T> h = gen_h<T>(r, nh, isma ? 0 : hk);
+    scale_all(h, g_sc);
+    const int bs = isfft ? (1 << ceil_log2(2 * nh)) - nh + 1 : isma ? nh : std::max(1, nh - 1);   // the memory of the processor
+    auto frame = [&]() {   // frames that are NOT aligned with the internal block / history
+        const int c = r.range(0, 5);
+        const int n = c == 0 ? r.range(0, 3) : c == 1 ? bs : c == 2 ? bs + r.range(1, 3) : r.range(1, 2 * bs + 1);
+        base_array<T> x = gen_x<T>(r, n, r.coin() ? 0 : xk, bs);
+        scale_all(x, g_sx);
+        return x;
+    };
+    std::ostringstream o;
+    o << "{\"op\":\"" << P::cls() << " copies\",\"type\":\"" << tn << "\",\"nh\":" << nh << ",\"coeff_kind\":\"" << HK[isma ? 0 : hk] << "\",\"input_kind\":\"" << XK[xk]
+      << "\",\"coeff_scale\":" << vh::jnum(g_sc) << ",\"input_scale\":" << vh::jnum(g_sx) << ",\"scenario\":\"" << (midstream ? "copy mid-stream" : "bank from a fresh prototype")
+      << "\",\"case_seed\":" << cs;
+    const std::string cj0 = o.str();
+    const std::string keyb = std::string("C07:") + P::nm() + "-copy-" + tn;
+    vh::set_current(keyb, cj0 + "}");
+    std::vector<Chan<P, T>> ch;
+    ch.reserve(8);
+    typename P::Obj proto = P::make(h);
+    if (!midstream) {
+        // std::vector<P>(n, proto): a filter bank; the prototype itself stays in use as one more channel
+        std::vector<typename P::Obj> bank(3, proto);
+        ch.emplace_back(proto, "prototype");
+        for (int i = 0; i < 3; ++i) ch.emplace_back(bank[i], "vector(n, proto) element");
+    } else {
+        ch.emplace_back(proto, "original");
+        const int npre = r.range(1, 4);
+        for (int i = 0; i < npre; ++i) ch[0].feed(frame());
+        // copy-construction mid-stream
+        ch.emplace_back(ch[0].obj, "copy-constructed mid-stream");
+        ch[1].inherit(ch[0]);
+        // copy-assignment over an object with other coefficients and its own history
+        base_array<T> h2 = gen_h<T>(r, std::max(2, nh / 2 + 1), 0);
+        ch.emplace_back(P::make(h2), "copy-assigned mid-stream");
+        ch[2].feed(frame());
+        ch[2].obj = ch[0].obj;
+        ch[2].inherit(ch[0]);
+        // a copy that processes other data and is destroyed
+        { typename P::Obj tmp = ch[0].obj; P::run(tmp, frame()); P::run(tmp, frame()); }
+        // a copy taken through pass-by-value and moved
+        auto byval = [](typename P::Obj q) { return q; };
+        ch.emplace_back(byval(ch[0].obj), "passed by value and moved");
+        ch[3].inherit(ch[0]);
+    }
+    // interleaved use
+    const int ncalls = r.range(6, 14);
+    for (int c = 0; c < ncalls; ++c) {
+        const int i = c < int(ch.size()) ? c : r.range(0, int(ch.size()) - 1);
+        ch[i].feed(frame());
+        if (midstream && c == 3) { auto& alias = ch[1].obj; ch[1].obj = alias; }   // self-assignment
+    }
+    vh::clear_current();
+    out.stat(std::string("copy_") + P::nm() + tn + (midstream ? "_midstream" : "_bank"));
+    scale_stats("copy");
+    // every channel against a separately constructed object on its logical stream, bit for bit, and against the defining sum
+    for (size_t i = 0; i < ch.size(); ++i) {
+        auto& c = ch[i];
+        typename P::Obj solo = P::make(h);
+        std::vector<T> ys;
+        int p = 0;
+        const base_array<T> xin = to_arr(c.in);
+        for (int l : c.lens) { append(ys, P::run(solo, sub(xin, p, l))); p += l; }
+        out.n_oracle++;
+        auto wit = [&](const char* what, int idx, ld e, ld b) {
+            std::ostringstream q;
+            q << cj0 << ",\"channel\":" << i << ",\"channel_is\":\"" << c.how << "\",\"frames\":" << vh::jints(c.lens) << ",\"what\":\"" << what << "\",\"len_got\":" << c.outv.size()
+              << ",\"len_expected\":" << ys.size() << ",\"index\":" << idx << ",\"error\":" << vh::jnum((double)e) << ",\"bound\":" << vh::jnum((double)b) << "}";
+            return q.str();
+        };
+        if (!same_bits(c.outv, ys)) {
+            int d = 0;
+            while (d < int(std::min(c.outv.size(), ys.size())) && std::memcmp(&c.outv[d], &ys[d], sizeof(T)) == 0) ++d;
+            out.fail(keyb, wit("differs from a separately constructed filter on the same stream", d, 0, 0));
+            continue;
+        }
+        vh::Rng r2(cs + i);
+        if (isfft) {
+            if (int(c.outv.size()) != int(c.in.size()) / bs * bs) { out.fail(keyb, wit("output length", -1, 0, 0)); continue; }
+            oracle_fft<T>(r2, h, xin, c.outv, bs, nullptr, keyb, keyb, [&](const char*, int idx, ld e, ld b) { return wit("defining sum", idx, e, b); });
+        } else if (!isma) {
+            oracle_fir<T>(r2, h, xin, to_arr(c.outv), c.lens, keyb, [&](int idx, ld e, ld b) { return wit("defining sum", idx, e, b); });
+        }
+        // the model continues the copied state with the copy's own frames
+        if (emit && (i == 1 || (i == 0 && midstream))) {
+            std::string lhs = P::head(h) + " " + std::to_string(c.lens.size()), rhs = isfft ? std::to_string(bs) : "";
+            p = 0;
+            for (size_t k = 0; k < c.lens.size(); ++k) {
+                lhs += " " + vh::hxs(sub(xin, p, c.lens[k]));
+                rhs += (rhs.empty() ? "" : " ") + c.fouts[k];
+                p += c.lens[k];
+            }
+            out.corr(lhs, rhs.empty() ? "-" : rhs);
+        }
+    }
+    // temporaries: a filter built from a temporary coefficient vector, called on a temporary frame, result bound to const&
+    {
+        const base_array<T> x = frame();
+        typename P::Obj named = P::make(h);
+        const base_array<T> yn = P::run(named, x);
+        typename P::Obj tobj = P::make(base_array<T>(h));
+        const base_array<T>& yt = P::run(tobj, base_array<T>(x));
+        std::vector<T> a1, a2;
+        append(a1, yn); append(a2, yt);
+        out.n_oracle++;
+        if (!same_bits(a1, a2)) out.fail(std::string("C07:") + P::nm() + "-temporaries-" + tn, cj0 + "}");
+    }
+    if (out.n_cases % 37 == 5) out.sample(cj0 + "}");
 }
 
 // ------------------------------------------------------------------ main
@@ -502,7 +772,7 @@ int main(int argc, char** argv) {
             for (int rep = 0; rep < (TH ? 6 : 3); ++rep, ++c) {
                 int nx = rep == 0 ? 3 * n + 1 : rep == 1 ? rng.range(0, 2 * n) : rng.range(0, TH ? 20000 : 4000);
                 if (TH && rep == 5 && n <= 128) nx = 100000;
-                const int xk = c % (NXK - 1);
+                const int xk = (c % 9 == 8) ? 5 : c % NXK;
                 const int nf = (c % 2) ? rng.range(2, 5) : 1;
                 const bool emit = (long long)nx <= 3000;
                 if (c % 2) test_ma<cmplx_t>(rng.next(), n, nx, xk, nf, emit, rep == 2);
@@ -512,6 +782,110 @@ int main(int argc, char** argv) {
                     else test_ma<cmplx_t>(rng.next(), n, nx, xk, nf, emit, false);
                 }
             }
+    }
+    // ---- absolute scale classes of the coefficients and of the inputs (the oracle is relative): every pair of classes whose
+    //      product stays inside the double range, every coefficient / input kind in rotation, both types, direct and FFT filter
+    {
+        const int nhq[] = {2, 3, 8, 17, 64, 100, 300};
+        int c = int(a.seed);
+        for (int rep = 0; rep < (TH ? 6 : 1); ++rep)
+            for (int i = 0; i < NSC; ++i)
+                for (int j = 0; j < NSC; ++j, ++c) {
+                    const double sc = SCALES[i], sx = SCALES[j];
+                    const double lg = std::log10(sc) + std::log10(sx);
+                    if (lg < -300.5 || lg > 250 || (i == 4 && j == 4)) continue;
+                    ScaleScope sg(sc, sx);
+                    const int nh = TH ? (rep < 5 ? nhq[(c + rep) % 7] : rng.range(2, 1024)) : nhq[c % 5];
+                    const int bs = (1 << ceil_log2(2 * nh)) - nh + 1;
+                    const int hk = c % NHK, xk = (c / NHK + rep) % NXK;
+                    const int nx = std::max(nh + 3, rng.range(1, 3 * bs + 5));
+                    const int nf = (c % 3 == 0) ? 1 : rng.range(2, 4);
+                    const bool emit = (long long)nh * nx <= 200000 && (TH ? rep == 0 : true);
+                    const uint64_t cs = rng.next();
+                    if ((c + rep) % 2) { test_fir<cmplx_t>(cs, nh, hk, nx, xk, nf, emit, 1); test_fft<cmplx_t>(cs + 1, nh, hk, nx, xk, nf, emit, 1); }
+                    else { test_fir<real_t>(cs, nh, hk, nx, xk, nf, emit, 1); test_fft<real_t>(cs + 1, nh, hk, nx, xk, nf, emit, 1); }
+                    if (TH || c % 2) {   // the other type, dense coefficients, plain inputs: the whole vector lives at the class scale
+                        const uint64_t cs2 = rng.next();
+                        if ((c + rep) % 2) { test_fir<real_t>(cs2, nh, c % 2, nx, 0, 1, false, 1); test_fft<real_t>(cs2 + 1, nh, c % 2, nx, 0, 1, false, 1); }
+                        else { test_fir<cmplx_t>(cs2, nh, c % 2, nx, 0, 1, false, 1); test_fft<cmplx_t>(cs2 + 1, nh, c % 2, nx, 0, 1, false, 1); }
+                    }
+                    // xcorr operands and the moving average's input at the same classes
+                    const int n1 = rng.range(1, TH ? 300 : 60), n2 = rng.range(1, TH ? 300 : 60);
+                    if (c % 2) test_xcorr<cmplx_t>(rng.next(), n1, n2, c % NXK, (c / 3) % NXK, n1 + n2 <= 64, false);
+                    else test_xcorr<real_t>(rng.next(), n1, n2, c % NXK, (c / 3) % NXK, n1 + n2 <= 64, false);
+                    if (i == 4 || TH) {
+                        const int n = (c % 4 == 0) ? 1 : rng.range(2, TH ? 200 : 40);
+                        if (c % 2) test_ma<real_t>(rng.next(), n, rng.range(0, 6 * n + 3), c % NXK, 1 + c % 3, true, c % 5 == 0);
+                        else test_ma<cmplx_t>(rng.next(), n, rng.range(0, 6 * n + 3), c % NXK, 1 + c % 3, true, c % 5 == 0);
+                        if (c % 8 < 2) { if (c % 2) test_xcorr<real_t>(rng.next(), n1, n1, c % NXK, 0, n1 <= 32, true); else test_xcorr<cmplx_t>(rng.next(), n1, n1, c % NXK, 0, n1 <= 32, true); }
+                    }
+                }
+        // tiny NON-ZERO taps next to O(1) taps / special values, seen through impulsive inputs (componentwise oracle of the direct path)
+        const int nt = TH ? 240 : 24;
+        for (int j = 0; j < nt; ++j, ++c) {
+            const int nh = (j % 3 == 0) ? nhq[j % 7] : rng.range(2, TH ? 400 : 80);
+            const int hk = 5 + j % 2, xk = (j % 4 == 0) ? 5 : (j % 4 == 1) ? 1 : (j % 4 == 2) ? 6 : 7;
+            const int nx = nh + rng.range(1, 3 * nh + 40);
+            const uint64_t cs = rng.next();
+            const bool emit = (long long)nh * nx <= 100000 && (!TH || j % 4 == 0);
+            if (j % 2) { test_fir<cmplx_t>(cs, nh, hk, nx, xk, 1 + j % 3, emit, 1); test_fft<cmplx_t>(cs + 1, nh, hk, nx, xk, 1 + j % 3, emit, 1); }
+            else { test_fir<real_t>(cs, nh, hk, nx, xk, 1 + j % 3, emit, 1); test_fft<real_t>(cs + 1, nh, hk, nx, xk, 1 + j % 3, emit, 1); }
+        }
+    }
+    // ---- object lifetime: banks copied from a fresh prototype, copies made mid-stream (construction, assignment, by value, destroyed)
+    {
+        const int nhq[] = {2, 3, 5, 16, 33, 100, 257};
+        const int ncp = TH ? 60 : 6;
+        int c = int(a.seed);
+        for (int j = 0; j < ncp; ++j)
+            for (int mid = 0; mid < 2; ++mid, ++c) {
+                const int nh = j < 7 ? nhq[(j + int(a.seed)) % 7] : rng.range(2, 400);
+                const int hk = c % NHK, xk = c % NXK;
+                const bool emit = nh <= 40 || (c % 4 == 0 && nh <= 128);
+                // one in four at a non-unit scale class
+                const double sc = (c % 4 == 3) ? SCALES[(c / 4) % NSC] : 1.0, sx = (c % 4 == 3 && sc < 1e50) ? SCALES[4 + (c / 4) % 3] : 1.0;
+                ScaleScope sg(sc, sx);
+                test_copy<PFir<real_t>, real_t>(rng.next(), nh, hk, xk, mid, emit);
+                test_copy<PFir<cmplx_t>, cmplx_t>(rng.next(), nh, hk, xk, mid, emit);
+                test_copy<PFft<real_t>, real_t>(rng.next(), nh, hk, xk, mid, emit);
+                test_copy<PFft<cmplx_t>, cmplx_t>(rng.next(), nh, hk, xk, mid, emit);
+                test_copy<PMa<real_t>, real_t>(rng.next(), (j % 3 == 0) ? 1 + j % 2 : nh, hk, xk, mid, emit);
+                test_copy<PMa<cmplx_t>, cmplx_t>(rng.next(), (j % 3 == 1) ? 1 : nh, hk, xk, mid, emit);
+            }
+    }
+    // ---- large single calls after smaller ones: frames of 20000, 70000 and 140000 samples (above 2^14, 2^16, 2^17), frames that are
+    //      exact multiples of 2^16 and of 49152, each arriving after shorter frames on the same object
+    {
+        std::vector<std::vector<int>> pats = {{137, 20000, 1, 70000, 513, 140000, 7}};
+        if (TH) {
+            pats.push_back({5000, 30000, 25000});
+            pats.push_back({100, 20000, 39900});
+            pats.push_back({1, 16385, 32769, 65537, 131073});
+            pats.push_back({64, 65536, 3, 131072, 65536});
+            pats.push_back({1000, 49152, 98304, 5, 147456});
+            pats.push_back({140000, 70000, 20000, 33});
+            pats.push_back({3, 16384, 16385, 2, 140000});
+        }
+        const int big_nh[] = {33, 5, 128, 2, 400, 1024};
+        int c = int(a.seed);
+        for (size_t pi = 0; pi < pats.size(); ++pi) {
+            g_lens = &pats[pi];
+            const int nx = std::accumulate(pats[pi].begin(), pats[pi].end(), 0);
+            const int nrep = TH ? 3 : 2;
+            for (int rep = 0; rep < nrep; ++rep, ++c) {
+                const int nh = big_nh[(c + int(pi)) % (TH ? 6 : 4)];
+                const int hk = c % 5, xk = (c % 3 == 0) ? 6 : c % NXK == 5 ? 0 : c % NXK;
+                const bool emit = pi == 0 && rep == 0 && nh <= 33;
+                const uint64_t cs = rng.next();
+                if (c % 2) { test_fir<cmplx_t>(cs, nh, hk, nx, xk, 0, emit, 97); test_fft<cmplx_t>(cs + 1, nh, hk, nx, xk, 0, false, 97); }
+                else { test_fir<real_t>(cs, nh, hk, nx, xk, 0, false, 97); test_fft<real_t>(cs + 1, nh, hk, nx, xk, 0, emit, 97); }
+                const int n = (c % 3 == 0) ? 1000 : rng.range(1, 300);
+                if (c % 2) test_ma<real_t>(rng.next(), n, nx, xk, 0, false, false);
+                else test_ma<cmplx_t>(rng.next(), n, nx, xk, 0, false, false);
+                out.stat("large_frame_cases");
+            }
+            g_lens = nullptr;
+        }
     }
     vh::unwatch();
     out.finish();
